@@ -203,6 +203,16 @@ def state_for(ctx, tm, qntot, cplx, gauge="left"):
     return psi
 
 
+def gauge_limit(spec, err0):
+    """how far the error of another gauge / bond padding of the SAME vector may be from the error of
+    the left-canonical copy.  P&C, CMF, VMF: the answer is a function of the vector only (3x slack for
+    the ODE tolerances).  PS / PS2 in a symmetry sector are not exact and their second-order error
+    constant depends on the sweep direction and the manifold: factor 10 there."""
+    if spec["kind"] in ("ps", "ps2") and err0 > 1e-7:
+        return 10 * err0 + 1e-6
+    return 3 * err0 + 1e-6
+
+
 def exc_sig(e):
     tb = traceback.extract_tb(e.__traceback__)[-1]
     return f"{type(e).__name__}@{tb.name}"
@@ -718,7 +728,7 @@ def block_gauge(ctx, tm, psi):
                 continue
             ctx.evald(("gauge", tm.label, nm, g))
             run.count(f"gauge:{base}:{g}")
-            if not err <= 3 * err0 + 1e-6:
+            if not err <= gauge_limit(spec, err0):
                 sig = f"{base}:gauge:{g}"
                 if base in ("tdvp_ps", "tdvp_ps2") and g in ("non-canonical", "mid-centre"):
                     sig = f"{base}:input-not-canonical-at-sweep-start:wrong-result"
@@ -764,7 +774,8 @@ def block_switch(ctx, tm, psi):
             err = float(np.linalg.norm(dense_state(cur) - scipy.linalg.expm(-1j * t * H) @ v0))
         except Exception as e:
             sig = f"switch:exception:{exc_sig(e)}"
-            if isinstance(e, ValueError) and "reshape" in str(e) and max(cur.bond_dims) > big:
+            if isinstance(e, ValueError) and "reshape" in str(e) and np.any(np.array(cur.bond_dims) > np.array(L.exact_bond_dims(tm))) or \
+                    isinstance(e, ValueError) and "reshape" in str(e) and np.any(np.array(cur.bond_dims) > np.array(psi.bond_dims)):
                 # §7 D11 reached by an ordinary history: a two-site step enlarged the bonds beyond the
                 # exact rank, the following tdvp_mu_* call cannot digest them
                 where = exc_sig(e).split("@")[1]
@@ -880,7 +891,7 @@ def block_overcomplete(ctx, tm, qntot):
                 continue
             ctx.evald(("overcomplete", tm.label, nm, gname))
             run.count(f"overcomplete:{base}:{gname}:ok")
-            if not err <= 3 * err0 + 1e-6:
+            if not err <= gauge_limit(spec, err0):
                 sig = f"{base}:over-complete-bonds:{gname}:wrong-result"
                 if base in ("tdvp_ps", "tdvp_ps2") and gname == "non-canonical":
                     sig = f"{base}:input-not-canonical-at-sweep-start:wrong-result"
